@@ -362,6 +362,13 @@ pub fn connection_start(r: &mut Rng, o: &Opts) -> (Vec<u8>, Structure) {
         if r.chance(2, 3) {
             r.shuffle(&mut pseudo);
         }
+        // one request in ten carries a pseudo-header no specification defines (extensions do: :protocol), now and
+        // then with blanks or a tab at the end or the start of its name
+        if r.chance(1, 10) {
+            let name = format!(":{}{}{}", if r.chance(1, 6) { " " } else { "" }, r.pick(&["protocol", "x", "foo-bar", "version"]), r.pick(&["", "", " ", "  ", "\t", "\u{a0}"]));
+            let at = if r.chance(1, 2) { pseudo.len() } else { r.usize_below(pseudo.len() + 1) };
+            pseudo.insert(at, (name, "v".to_string()));
+        }
         list.extend(pseudo);
         if r.chance(5, 6) {
             list.push(("user-agent".into(), format!("sim-agent/{}", r.below(100))));
